@@ -25,16 +25,16 @@ var c17Reviewed = map[string]string{
 }
 
 type taggerCons struct {
-	setter   string // set* type name
-	builder  string // validations wrapper type name ("" when none)
-	rxConst  string // name of the regexp format constant / regexp variable
-	groups   int
-	hasRx    bool
-	name     string // tagger name literal/format passed to newSingleLineTagParser etc.
-	fn       string
-	pos      token.Pos
-	multi    bool
-	list     token.Pos // position of the enclosing []tagParser literal (0 when appended singly)
+	setter  string // set* type name
+	builder string // validations wrapper type name ("" when none)
+	rxConst string // name of the regexp format constant / regexp variable
+	groups  int
+	hasRx   bool
+	name    string // tagger name literal/format passed to newSingleLineTagParser etc.
+	fn      string
+	pos     token.Pos
+	multi   bool
+	list    token.Pos // position of the enclosing []tagParser literal (0 when appended singly)
 }
 
 // collectTaggers finds every construction of a set* parser value.
